@@ -18,7 +18,7 @@ LEVEL = "exploration"
 RULE = ("(i) bounded-exhaustive layouts: every (shared prefix, referrer chain, target chain) of group/repeat containers up to "
         "total depth 3 (quick) / 4 (thorough), both sheet orders, x cell kinds {relevant, constraint, calculation, required, "
         "readonly, default, choice_filter, external-select choice_filter, repeat_count, trigger, seed, label, hint, guidance_hint, "
-        "constraint_message, required_message, bind::custom}; (ii) Hypothesis 'refs' profile forms with several references per expression, "
+        "constraint_message, required_message, bind::custom, appearance of question/group/repeat rows}; (ii) Hypothesis 'refs' profile forms with several references per expression, "
         "indexed-repeat/instance()/pulldata/last-saved, plus missing-name and ambiguous-name mutations; non-trivial = referrer "
         "or target inside >=1 repeat; distinct by SHA-1 of the case JSON")
 ASSUMPTIONS = ["'reaches' is decided by static resolution of the emitted path over the parsed instance (exact for /a/b, ../x, current()/../x)",
@@ -31,7 +31,7 @@ BIND_EXPR = {"relevant": "relevant", "constraint": "constraint", "calculation": 
 TEXT_KINDS = {"label": "label", "hint": "hint", "guidance_hint": "hint", "constraint_message": "jr:constraintMsg", "required_message": "jr:requiredMsg"}
 LAYOUT_KINDS = ["relevant", "constraint", "calculation", "required", "readonly", "default", "choice_filter", "repeat_count",
                 "trigger", "seed", "label", "hint", "guidance_hint", "constraint_message", "required_message", "bind::custom",
-                "ext_choice_filter"]
+                "ext_choice_filter", "appearance", "group_appearance", "repeat_appearance"]
 
 
 # ------------------------------------------------------------------ layouts
@@ -90,10 +90,17 @@ def make_layout_form(pre, a, b, kind, target_first):
         rc[kind] = f"see {ref} now"
     elif kind == "bind::custom":
         rc = {"type": "text", "name": "R", "label": "referrer", "bind::custom": f"{ref} + 1"}
-    elif kind == "repeat_count":
+    elif kind == "appearance":
+        rc = {"type": "text", "name": "R", "label": "referrer", "appearance": f"custom({ref})"}
+    elif kind in ("repeat_count", "group_appearance", "repeat_appearance"):
         rc = None
-    R = {"k": "q", "c": rc} if rc is not None else {"k": "r", "c": {"name": "R", "label": "referrer", "repeat_count": ref},
-                                                        "ch": [{"k": "q", "c": {"type": "text", "name": "inner", "label": "i"}}]}
+    inner = [{"k": "q", "c": {"type": "text", "name": "inner", "label": "i"}}]
+    if rc is not None:
+        R = {"k": "q", "c": rc}
+    elif kind == "repeat_count":
+        R = {"k": "r", "c": {"name": "R", "label": "referrer", "repeat_count": ref}, "ch": inner}
+    else:
+        R = {"k": kind[0], "c": {"name": "R", "label": "referrer", "appearance": f"custom({ref})"}, "ch": inner}
     ra, tb = wrap(a, R, "a"), wrap(b, T, "b")
     body = [tb, ra] if target_first else [ra, tb]
     nodes = body
@@ -197,6 +204,15 @@ def _cases(draw):
                         b["c"][k] = v
     if g.p("_", 0.2):
         plant_select_from_repeat(g, form)
+    if g.p("_", 0.2):
+        # a reference inside an appearance cell (search()/custom appearances take them) of a question, group or repeat row
+        named = [nm for nm, hits in model.find_named(form).items() if len(hits) == 1 and hits[0][0]["k"] == "q"
+                 and hits[0][0]["c"].get("type", "").split(" ")[0] not in ("xml-external", "csv-external")]
+        hosts = [n for n, _ in model.walk(form["nodes"]) if n["k"] in ("q", "g", "r") and "appearance" not in n["c"] and "label" in n["c"]
+                 and n["c"].get("type", "text").split(" ")[0] in ("text", "integer", "decimal")]
+        if named and hosts:
+            h = g.pick(hosts)
+            h["c"]["appearance"] = g.pick(["custom(${%s})", "w1 ${%s}", "${%s}"]) % g.pick(named)
     c = {"form": form}
     if g.p("_", 0.12):
         br = break_ref(g, form)
@@ -516,6 +532,8 @@ def audit(out, form, v, root):
             elif base == "bind" and b is not None:
                 attr = col[6:]
                 check(n, "bind::custom", source, [xform.attrs(b).get(attr)])
+            elif base == "appearance" and ctrl_el is not None and n.kind in ("q", "g", "r"):
+                check(n, "appearance", source, [ctrl_el.get("appearance")])
             elif base == "instance" and ctx_of(n) is not None:
                 check(n, "instance::custom", source, [xform.attrs(ctx_of(n)).get(col[10:])])
             elif base == "body" and ctrl_el is not None:
